@@ -561,6 +561,7 @@ Definition mon_cmdfault (t : rtree) (paths : list path) (prev : N) (view : list 
            (e : cev) (f : fault) (oc : list outc) (ob : wobs) : N :=
   let vs := fault_victims f in
   if negb (N.eqb prev (N_of_estate (ev_src e))) then 0
+  else if negb (N.eqb prev 3 || N.eqb prev 4) then 0     (* the property speaks of CONFIGURED / RUNNING *)
   else if any_crit t paths vs then
     match f with
     | FDead _ =>
